@@ -518,7 +518,7 @@ def classify(src: str, what: str, rscope: RScope | None) -> tuple[str | None, li
 def judge_module(rec, src: str, nontrivial_hint: bool | None = None, model: bool = True) -> None:  # noqa: ANN001
     import griffe
 
-    case = {"source": src}
+    case = {"source": src} if model else {"source": src, "mode": "totality"}
     tree = ast.parse(src)
     nontrivial = bool(nontrivial_hint)
     try:
@@ -658,7 +658,7 @@ def run_shard(spec: dict, rec) -> None:  # noqa: ANN001
 
 
 def run_replay(inp: dict, rec) -> None:  # noqa: ANN001
-    judge_module(rec, inp["source"])
+    judge_module(rec, inp["source"], model=inp.get("mode") != "totality")
 
 
 def run_pinned(findings: list[dict], rec) -> dict:  # noqa: ANN001
@@ -667,6 +667,6 @@ def run_pinned(findings: list[dict], rec) -> dict:  # noqa: ANN001
     out = {}
     for f in findings:
         sub = Recorder(PROP, {})
-        judge_module(sub, f["witness"]["source"])
+        judge_module(sub, f["witness"]["source"], model=f["witness"].get("mode") != "totality")
         out[f["id"]] = pinned_result(sub, f)
     return out
